@@ -7,6 +7,9 @@ Local Open Scope N_scope.
 
 Definition xhash (b : bytes) : bytes := firstn 20 (b ++ repeat 0 20).
 Definition xsch (i : nat) : N := N.of_nat i.
+(** stand-ins for the url crate: every host and URL accepted, shown as written *)
+Definition xid (b : bytes) : option bytes := Some b.
+Definition xnone (b : bytes) : option bytes := None.
 
 Definition hi : bytes := [104; 105; 33].                       (* "hi!" *)
 Definition cwd_w : bytes := [SEP; 119].                         (* /w *)
@@ -24,7 +27,7 @@ Definition ex_multi (path : list value) : bytes :=
                                (K_name, Str [114]); (K_piece_length, Int 4); (K_pieces, Str (xhash hi))])]).
 
 Definition run (tb : bytes) : option outcome :=
-  verify_cmd xhash xhash xsch ex_fs cwd_w None None TStdin tb.
+  verify_cmd xhash xhash xsch xid xid ex_fs cwd_w None None TStdin tb.
 
 Example ex_single_success : run (ex_single 2 (xhash [104; 105] ++ xhash [33])) = Some Success.
 Proof. vm_compute. reflexivity. Qed.
@@ -38,7 +41,7 @@ Proof. vm_compute. reflexivity. Qed.
 
 (** the witness of the repaired defect: {length 3, piece length 0, pieces ""} against a 3-byte file *)
 Example ex_zero_piece_length_rejected :
-  exists t, load (ex_single 0 []) = Some t /\ tplen t = 0 /\ run (ex_single 0 []) = Some Rejected.
+  exists t, load_typed xid xid (ex_single 0 []) = Some t /\ tplen t = 0 /\ run (ex_single 0 []) = Some Rejected.
 Proof. eexists. split; [vm_compute; reflexivity|]. split; vm_compute; reflexivity. Qed.
 
 Example ex_multi_success : run (ex_multi [Str [102]]) = Some Success.
@@ -51,7 +54,7 @@ Example ex_escape_rejected :
   let root := cwd_w ++ [SEP; 114] in
   resolve ex_fs (absolute root comps) = Some (File hi) /\
   lex_escapes root comps = true /\
-  load (ex_multi (map Str comps)) = None /\
+  load (ex_multi (map Str comps)) = None /\ load_typed xid xid (ex_multi (map Str comps)) = None /\
   run (ex_multi (map Str comps)) = Some Rejected.
 Proof. vm_compute. repeat split; reflexivity. Qed.
 
